@@ -38,7 +38,27 @@ def run(v, tier, rng):
             i = idx[k]
             v.violation("object rejected by the independent COFF reader (code %d: 1=inconsistent layout, 2=unparseable)" % c,
                         {"source": cases[i]["srcs"][0], "object_hex": res[str(i)]["calls"][0]["out"]})
-    # objdump as a second opinion on the reader (support only)
+    # the same object written again in the same process (and after other objects) must be just as well-formed
+    rep = [i for i, c in enumerate(cs) if any(len(n) > 8 for n in c["globals"])][:: (2 if tier == "quick" else 1)][:400]
+    rcases = [{"id": "r%d" % i, "srcs": [cases[i]["srcs"][0], cases[rep[(k + 1) % len(rep)]]["srcs"][0], cases[i]["srcs"][0]]} for k, i in enumerate(rep)]
+    rres = lib.run_cases(rcases, "c08r")
+    ritems, rmeta = [], []
+    for k, i in enumerate(rep):
+        r = rres["r%d" % i]
+        if not r.get("calls") or len(r["calls"]) != 3:
+            v.violation("assembler died while writing several objects in one process", {"source": cases[i]["srcs"][0]})
+            continue
+        for j, call in enumerate(r["calls"]):
+            ritems.append(lib.gbytes(lib.hex2list(call["out"])))
+            rmeta.append((i, j))
+    rcodes = lib.coq_eval_values("c08rr", lib.header("Check.C08 Spec.CoffRead", "check_c08_read"), ritems, per_file=150)
+    for k, c in enumerate(rcodes):
+        if c != 0:
+            i, j = rmeta[k]
+            v.violation("object number %d written in one process is rejected by the independent COFF reader (code %d)" % (j + 1, c),
+                        {"source": cases[i]["srcs"][0], "note": "sources assembled in this order in one process: this one, another WCOFF program, this one again",
+                         "other_source": cases[rep[(rep.index(i) + 1) % len(rep)]]["srcs"][0]})
+            break
     # correspondence model vs implementation (whole file)
     items2 = ["(%s, %s)" % (A.g_program(c["prog"]), lib.obs_of(res[str(i)])) for i, c in enumerate(cs)]
     bad = lib.coq_eval("c08m", lib.header("Check.C08", "check_file"), items2, per_file=150)
